@@ -49,6 +49,15 @@ def do_replay(prop, path):
     elif rp.get("kind") == "make_unique":
         from vf.e1.flatten_jobs import replay_make_unique
         viol, txt = replay_make_unique(rp)
+    elif rp.get("kind") == "concatenation":
+        from vf.e1.verilog_jobs import replay_concatenation
+        viol, txt = replay_concatenation(rp)
+    elif rp.get("kind") == "const_two_modules":
+        from vf.e1.verilog_jobs import replay_const_two_modules
+        viol, txt = replay_const_two_modules(rp)
+    elif rp.get("kind") == "get_wires":
+        from vf.e1.verilog_jobs import replay_get_wires
+        viol, txt = replay_get_wires(rp)
     elif rp.get("kind") == "policy":
         from vf.e1.parser_jobs import replay_policy
         viol, txt = replay_policy(rp)
